@@ -89,7 +89,7 @@ func c04Actions(native bool) []*actlang.Prog {
 }
 
 func c04Guards(native bool) []*actlang.Prog {
-	return []*actlang.Prog{
+	gs := []*actlang.Prog{
 		nil,
 		prog(native),
 		prog(native, Op{K: actlang.Set, A: "g", V: 1.0}),
@@ -97,6 +97,11 @@ func c04Guards(native bool) []*actlang.Prog {
 		prog(native, Op{K: actlang.Throw}),
 		prog(native, Op{K: actlang.Set, A: "t", V: "n2"}, Op{K: actlang.Emit, V: "guard-emits"}),
 	}
+	if !native {
+		// a script that writes into a structured binding it was handed (an empty object, say) and then says no
+		gs = append(gs, prog(false, Op{K: actlang.MutateDeep, A: "o.x"}, Op{K: actlang.RetNull}))
+	}
+	return gs
 }
 
 // guards that look at the candidate they are offered (only combined with patterns that can give several)
@@ -165,6 +170,10 @@ func c04Branches(native bool, thorough bool) [][]rstep.ABranch {
 		for _, b2 := range second {
 			lists = append(lists, []rstep.ABranch{b, b2})
 		}
+		// after a guard that wrote into a structured binding: a branch that looks at that binding
+		if g := b.Guard; g != nil && len(g.Ops) > 0 && g.Ops[0].K == actlang.MutateDeep {
+			lists = append(lists, []rstep.ABranch{b, {Pattern: M{"o": M{"x": "?v"}}, Target: "n2"}})
+		}
 	}
 	return lists
 }
@@ -180,6 +189,8 @@ var c04States = []M{
 	{"l": []interface{}{"a", "b", "c"}, "t": "n1"},
 	// what an earlier failed action left behind (under actionErrorBranches the machine goes on with it)
 	{"actionError": "earlier", "a": 1.0},
+	// an empty object among the bindings
+	{"o": M{}, "a": 1.0},
 }
 
 var c04Pendings = []interface{}{
@@ -359,6 +370,9 @@ func forEachStepCase(c *vh.Ctx, thorough bool, f func(spec *core.Spec, cs stepCa
 								continue // error settings are unobservable without an action
 							}
 							for _, bs := range c04States {
+								if native && bs["o"] != nil {
+									continue // the object binding is there for the script guard that writes into it
+								}
 								for _, p := range c04Pendings {
 									cs := stepCase{Spec: &as2, Node: "n0", Bs: bs, Pending: p}
 									f(spec, cs, li)
@@ -379,6 +393,9 @@ func forEachStepCase(c *vh.Ctx, thorough bool, f func(spec *core.Spec, cs stepCa
 										continue
 									}
 									for _, bs := range c04States {
+										if native && bs["o"] != nil {
+											continue
+										}
 										for _, p := range c04Pendings {
 											f(spec2, stepCase{Spec: &as2, Node: "n0", Bs: bs, Pending: p, Setup: setup}, li)
 										}
